@@ -17,7 +17,8 @@ RULE = ('three kinds of cases. ctrl (60%): twin worlds driven by the same random
         'as module-level functions, ComponentReference and ProcessorReference get/set/del, '
         'desper.controller()) is issued through a controller on world A and as the plain World '
         'call for the owner entity on world B; results, callbacks and a full public snapshot '
-        '(entities, get_components and entity_exists of every entity, processors, every '
+        '(entities, get_components and entity_exists of every entity, processors and their '
+        'priority attributes, every '
         'controller\'s entity/world) of both are recorded after every op. proto (25%): Prototype '
         'class chains (subclass overriding component_types / init_methods / init_prefix / named '
         'methods / _default_init, instance attributes), 1-5 listed types whose three sources '
@@ -107,7 +108,9 @@ def gen_ctrl(rng):
     fpt = rng.choice(procs)             # the processor type the focus controller keeps reading
     if focus_mode:
         procs += [fpt] * rng.randint(1, 2)
-    pprio = [rng.choice([None, -1, 0, 1]) for _ in range(npt)]
+    # class-level priorities that differ along the hierarchy, instance-level ones on top
+    pprio = [rng.choice([None, -2, -1, 0, 1, 2]) for _ in range(npt)]
+    piprio = [rng.choice([-2, -1, 1, 2]) if rng.random() < 0.35 else None for _ in procs]
 
     def tyid(c):
         kind, i = comps[c]
@@ -326,7 +329,8 @@ def gen_ctrl(rng):
             elif q < 0.95:
                 p = rng.randrange(len(procs))
                 sups = [PT0 + j for j in panc[procs[p]]]
-                s = ['prefset', rng.choice(sups), p]
+                strict = [t for t in sups if t != PT0 + procs[p]]
+                s = ['prefset', rng.choice(strict if strict and rng.random() < 0.7 else sups), p]
             else:
                 s = ['prefdel', PT0 + rng.randrange(npt)]
             ops.append(['short', k, e, s, form])
@@ -377,8 +381,8 @@ def gen_ctrl(rng):
                 ops.append(['getproc', PT0 + rng.randrange(npt)])
             else:
                 ops.append(['remproc', PT0 + rng.randrange(npt)])
-    return dict(kind='ctrl', cbases=cb, kbases=kb, pbases=pb, pprio=pprio, comps=comps,
-                procs=procs, ents=ents, ops=ops)
+    return dict(kind='ctrl', cbases=cb, kbases=kb, pbases=pb, pprio=pprio, piprio=piprio,
+                comps=comps, procs=procs, ents=ents, ops=ops)
 
 
 def gen_proto(rng):
@@ -510,6 +514,9 @@ def run_ctrl(case):
             for k, i in enumerate(case['procs']):
                 p = pclasses[i]()
                 p.side, p.serial = name, k
+                ip = (case.get('piprio') or [None] * len(case['procs']))[k]
+                if ip is not None:
+                    p.priority = ip
                 self.procs.append(p)
 
         def cidx(self, obj):
@@ -544,6 +551,8 @@ def run_ctrl(case):
                 comps=[sorted(self.cidx(c) for c in w.get_components(e)) for e in case['ents']],
                 exists=[bool(w.entity_exists(e)) for e in case['ents']],
                 procs=[self.pidx(p) for p in w.processors],
+                prios=[p.priority if isinstance(p.priority, int) else -7777
+                       for p in w.processors],
                 cent=cent, world=world_ok)
 
     A, B = Side('A'), Side('B')
@@ -865,11 +874,12 @@ def enc_res(r):
 
 
 def enc_snap(s):
-    return '(Build_snap %s %s %s %s %s %s)' % (
+    return '(Build_snap %s %s %s %s %s %s %s)' % (
         lst([z(e) if isinstance(e, int) else '(-97)' for e in s['entities']]),
         lst([lst([z(c) for c in cs]) for cs in s['comps']]),
         lst([b(x) for x in s['exists']]),
         lst([z(p) for p in s['procs']]),
+        lst([z(p) for p in s['prios']]),
         lst(['(%s, %s)' % (z(k), opt(None if e is None else z(e))) for k, e in s['cent']]),
         b(s['world']))
 
